@@ -296,6 +296,37 @@ def run(c):
               "concurrent stress run with keep-alive and immediate port reuse")
 
 
+def burst_reuse_check(c, prop, nburst):
+    """An attributed connection is reset and a direct connection from the same source port follows at once, so both may
+    sit in the accept queue together; the second must still be refused (421, nothing relayed).  Timing dependent by nature:
+    reported only if it shows in the first run and again in each of three repetitions.  (Shared by C07 and C01.)"""
+    def burst(tag, n):
+        st, meta = [], []
+        for i in range(n):
+            a, b = "%sa%d" % (tag, i), "%sb%d" % (tag, i)
+            st += [{"op": "connect", "conn": a, "attr": {k2: IDENT["rootws"][k2] for k2 in ("uid", "admin", "dip", "dport")}},
+                   {"op": "close", "conn": a},
+                   {"op": "connect", "conn": b, "port_of": a, "attr": None},
+                   {"op": "request", "conn": b, "id": b + "_r", "method": "GET", "target": "/burst/%d" % i, "headers": [["Host", "h"]]},
+                   {"op": "close", "conn": b}]
+            meta += [{"e": "conn", "conn": b, "attributed": False, "elevated": False, "dest": "none"},
+                     {"e": "req", "conn": b, "id": b + "_r"}]
+        ev_, d_, _ = rig.run_rig({"steps": st, "drain_ms": 300}, "burst_%s" % prop.lower(), timeout=600)
+        failed_ = {e["conn"] for e in ev_ if e["e"] == "ConnectError"}
+        rows_ = rows_from(ev_, [m for m in meta if m["conn"] not in failed_])
+        return rows_, [r for r in rows_ if r["e"] == "req" and (r["relayed"] or r["status"] != 421)]
+    brows, binh = burst("u", nburst)
+    c.extra["burst_reuses"] = nburst
+    c.extra["burst_inherited_first_run"] = len(binh)
+    if binh:
+        again = [len(burst("v%d" % k, nburst)[1]) for k in range(3)]
+        c.extra["burst_inherited_repetitions"] = again
+        if all(x > 0 for x in again):
+            c.violation("a direct connection queued right behind a reset attributed connection from the same source port "
+                        "inherits its identity and is relayed (%d of %d bursts; repetitions %s)" % (len(binh), nburst, again),
+                        {"broken": "P_C07_UnattributedRefused", "scenario": "burst-reuse"}, {"inherited": binh[:3]})
+
+
 def late_record(c, prop="C07"):
     """A record appears under a source-port number while a connection with that port number is already open (the kernel
     publishes it for ANOTHER socket: a different local address, or a connect that never reaches accept): the open
